@@ -228,7 +228,7 @@ def run_clf(desc):
     viol = []
 
     path = desc.get("path", "fit")
-    classes_none = bool(desc.get("classes_none")) and not multi and name not in ("sliding",)
+    classes_none = bool(desc.get("classes_none")) and not multi and name not in ("sliding", "sliding_pwc")      # (inferred classes of a sliding window are those of the window, not of all y)
     if classes_none:
         cm = None
 
